@@ -10,17 +10,24 @@ import (
 	"github.com/juev/hledger-lsp/internal/zzverif"
 )
 
-// C16 (b): the whole (*Server).Completion pipeline on a fixed two-file workspace.
+// C16 (b): the whole (*Server).Completion pipeline.
 //
-// The workspace (main.journal includes a.journal) is built from a derivation: a list of
-// transactions (payee, tag, two accounts, commodity) chosen by a case-split usage profile.
-// The symbol tables and usage counts of the model are tallied from that derivation, never
-// from the code under test. The open buffer of main.journal is the disk content plus the
-// line being typed:   pre + typed fragment + | + post   (| = cursor), where `pre` fixes the
-// syntactic position (posting, virtual posting, status mark, header, directive, amount,
-// comment), the fragment is a concrete beginning plus 0..2 (quick) / 0..3 (thorough) symbolic
-// bytes over a small alphabet of the letters that occur in the names (both cases, ':'), and
-// `post` is what already stands to the right of the cursor.
+// VerifC16Pipeline / ...Long: a fixed two-file workspace (main.journal includes a.journal), built
+// from a derivation: a list of transactions (payee, tag, two accounts, commodity) chosen by a
+// case-split usage profile. The symbol tables and usage counts of the model are tallied from
+// that derivation, never from the code under test. The open buffer of main.journal is the disk
+// content plus the line being typed:   pre + typed fragment + | + post   (| = cursor), where
+// `pre` fixes the syntactic position (posting, virtual posting, status mark, header, directive,
+// amount, cost amount, comment), the fragment is a concrete beginning ("", "ex:", "ex:fo", "Sh")
+// plus 0..2 (quick) / 0..3 (thorough) symbolic bytes over a small alphabet of letters that occur
+// in the names (both cases) and ':', and `post` is what already stands to the right of the cursor.
+// Each path asks for the list under several completion.maxResults (the largest, 200, exceeds
+// every table) with fuzzy matching and showCounts case-split.
+//
+// VerifC16Document / ...Long: the same lines and oracle without a workspace folder: one document
+// holds all transactions and the typed line is part of the analysed text (so the name under the
+// cursor itself exists in the document); the request either parses the buffer itself or uses
+// the include tree stored by the background analysis of didOpen.
 
 func init() {
 	zzverif.Register("VerifC16Pipeline", VerifC16Pipeline)
@@ -208,7 +215,7 @@ var c16Kinds = [c16NKinds]c16Kind{
 	c16KHeaderMark:   {ContextPayee, c16AlphaPayee, []string{"2024-01-20 * ", "2024-01-20 (c1) ", "2024-01-20 ! "}, 1, []string{""}, []string{""}, 1, false},
 	c16KAccountDir:   {ContextAccount, c16AlphaAccount, []string{"account "}, 1, []string{"", "ex:"}, []string{"", "od"}, 1, false},
 	c16KCommodityDir: {ContextCommodity, c16AlphaComm, []string{"commodity "}, 1, []string{""}, []string{"", "D"}, 1, false},
-	c16KAmount:       {ContextCommodity, c16AlphaComm, []string{"    as:cash  1 ", "    as:cash  1 USD @ 2 ", "    as:cash  -2.50 ", "    as:cash  1", "    as:cash  ", "    as:cash  1 USD = 3 "}, 2, []string{""}, []string{"", "  ", "SD", "  ; n"}, 2, true},
+	c16KAmount:       {ContextCommodity, c16AlphaComm, []string{"    as:cash  1 ", "    as:cash  1 USD @ 2 ", "    as:cash  -2.50 ", "    as:cash  1", "    as:cash  ", "    as:cash  1 USD = 3 ", "    as:cash   1 ", "\tas:cash  1 "}, 2, []string{""}, []string{"", "  ", "SD", "  ; n"}, 2, true},
 	c16KTag:          {ContextTagName, c16AlphaTag, []string{"    as:cash  1 USD  ; ", "2024-01-20 Shop  ; ", "    as:cash  1 USD  ; trip:a, "}, 1, []string{""}, []string{"", ":a"}, 1, true},
 }
 
@@ -339,8 +346,8 @@ func verifC16Pipeline(cfg c16Cfg) {
 
 	// --- configuration ---
 	fuzzy := zzverif.Choice("fuzzy", 2) == 1
-	// usage profile and showCounts: every combination with nothing typed (the ranking clause) and
-	// in the thorough tier; the quick tier keeps profile 0 / counts shown once something is typed
+	// usage profile and showCounts: every combination while at most cfg.crossConf characters are
+	// typed (0: nothing typed - the ranking clause); beyond that profile 0 with counts shown
 	profile, showCounts := 0, true
 	if len(cp)+nf <= cfg.crossConf {
 		profile = zzverif.Choice("profile", len(c16Profiles))
